@@ -320,8 +320,10 @@ where
                 let mut incident_cell = None;
                 let mut data = None;
 
-                while let Some(key) = map.next_key()? {
-                    match key {
+                // Owned keys: readers that cannot lend out `&str` (`from_reader`, `from_value`) hand
+                // the field names over as owned strings.
+                while let Some(key) = map.next_key::<String>()? {
+                    match key.as_str() {
                         "point" => {
                             if point.is_some() {
                                 return Err(de::Error::duplicate_field("point"));
